@@ -8,11 +8,16 @@
   * `no_handler_reaches_user`: about the *source*: the table of every `try/except` in
     `lbfgsb/*.py`, regenerated from /repo on every run by translate/handlers2lean.py, contains
     no handler whose body can reach a user callable (conservative name-based call graph).
-  * `no_residue`: the model is a function of its arguments — an identical call afterwards
-    returns the same value.
+  * `no_residue`: a failed run leaves nothing behind because there is nowhere to leave it: the
+    tables of every module-level / class-level mutable object, memoised function, function
+    attribute and mutable default argument of the package (regenerated from the source on every run
+    by translate/state2lean.py) contain no write — the only state is that of the per-call objects,
+    which die with the failed call. That the identical fault-free call afterwards behaves as before
+    is checked on the real code after every injected fault.
 -/
 import LbfgsbVerif.Proofs.C20
 import LbfgsbVerif.Generated.Handlers
+import LbfgsbVerif.Generated.State
 
 namespace Lbfgsb.C20
 open Lbfgsb
@@ -28,9 +33,10 @@ theorem error_is_users (u : User α ε) (o : Oracles α δ) (c : Cfg α) (e : ε
 theorem no_handler_reaches_user :
     Generated.handlers.all (fun h => !h.reachesUser) = true := by decide
 
-/-- **C20 (3)** nothing is left behind: runs are functions of their arguments. -/
-theorem no_residue (u : User α ε) (o : Oracles α δ) (c : Cfg α) :
-    minimize u o c = minimize u o c := rfl
+/-- **C20 (3)** nothing is left behind: the package has no state that outlives a call. -/
+theorem no_residue :
+    (∀ g ∈ Generated.State.globals, g.writes = []) ∧ (∀ d ∈ Generated.State.defaults, d.writes = []) := by
+  decide
 
 /-! ### Non-vacuity: a failing gradient at the second evaluation surfaces as that error. -/
 section nonvacuous
